@@ -163,7 +163,7 @@ type norm struct {
 	inGenerated bool
 	curFn       *ast.FuncDecl
 	closureOf   map[*types.Var]*types.Func // local function literals treated as helpers (per round)
-	closureDef  map[*types.Func]*ast.AssignStmt
+	closureDef  map[*types.Func]ast.Stmt
 	closureLit  map[*types.Func]*ast.FuncLit
 }
 
@@ -1853,22 +1853,67 @@ func (n *norm) aliasable(id *ast.Ident, want types.Type) bool {
 func (n *norm) registerClosures(fd *ast.FuncDecl, file *ast.File) {
 	if n.closureOf == nil {
 		n.closureOf = map[*types.Var]*types.Func{}
-		n.closureDef = map[*types.Func]*ast.AssignStmt{}
+		n.closureDef = map[*types.Func]ast.Stmt{}
 		n.closureLit = map[*types.Func]*ast.FuncLit{}
 	}
+	// `_ = f` statements (written by the expansion itself) do not count as uses
+	blankUse := map[*ast.Ident]bool{}
 	ast.Inspect(fd.Body, func(x ast.Node) bool {
-		as, ok := x.(*ast.AssignStmt)
-		if !ok || as.Tok != token.DEFINE || len(as.Lhs) != 1 || len(as.Rhs) != 1 {
+		if as, ok := x.(*ast.AssignStmt); ok && as.Tok == token.ASSIGN && len(as.Lhs) == 1 && len(as.Rhs) == 1 {
+			if l, ok := as.Lhs[0].(*ast.Ident); ok && l.Name == "_" {
+				if rid, ok := as.Rhs[0].(*ast.Ident); ok {
+					blankUse[rid] = true
+				}
+			}
+		}
+		return true
+	})
+	litOf := func(e ast.Expr) *ast.FuncLit {
+		e = ast.Unparen(e)
+		if l, ok := e.(*ast.FuncLit); ok {
+			return l
+		}
+		// a conversion to a named function type: T(func(...) {...})
+		if c, ok := e.(*ast.CallExpr); ok && len(c.Args) == 1 {
+			if tv, ok := n.info.Types[c.Fun]; ok && tv.IsType() {
+				if l, ok := ast.Unparen(c.Args[0]).(*ast.FuncLit); ok {
+					return l
+				}
+			}
+		}
+		return nil
+	}
+	ast.Inspect(fd.Body, func(x ast.Node) bool {
+		var def ast.Stmt
+		var id *ast.Ident
+		var lit *ast.FuncLit
+		switch as := x.(type) {
+		case *ast.AssignStmt:
+			if as.Tok != token.DEFINE || len(as.Lhs) != 1 || len(as.Rhs) != 1 {
+				return true
+			}
+			lit = litOf(as.Rhs[0])
+			id, _ = as.Lhs[0].(*ast.Ident)
+			def = as
+		case *ast.DeclStmt:
+			gd, ok := as.Decl.(*ast.GenDecl)
+			if !ok || gd.Tok != token.VAR || len(gd.Specs) != 1 {
+				return true
+			}
+			vs := gd.Specs[0].(*ast.ValueSpec)
+			if len(vs.Names) != 1 || len(vs.Values) != 1 {
+				return true
+			}
+			lit = litOf(vs.Values[0])
+			id = vs.Names[0]
+			def = as
+		default:
 			return true
 		}
-		lit, ok := as.Rhs[0].(*ast.FuncLit)
-		if !ok {
+		if lit == nil || id == nil || id.Name == "_" {
 			return true
 		}
-		id, ok := as.Lhs[0].(*ast.Ident)
-		if !ok || id.Name == "_" {
-			return true
-		}
+		as := def
 		v, ok := n.info.Defs[id].(*types.Var)
 		if !ok || n.closureOf[v] != nil {
 			return true
@@ -1889,7 +1934,7 @@ func (n *norm) registerClosures(fd *ast.FuncDecl, file *ast.File) {
 			return true
 		})
 		ast.Inspect(fd.Body, func(y ast.Node) bool {
-			if uid, isId := y.(*ast.Ident); isId && n.info.Uses[uid] == types.Object(v) && !calls[uid] {
+			if uid, isId := y.(*ast.Ident); isId && n.info.Uses[uid] == types.Object(v) && !calls[uid] && !blankUse[uid] {
 				okUses = false
 			}
 			return true
@@ -1926,9 +1971,23 @@ func (n *norm) registerClosures(fd *ast.FuncDecl, file *ast.File) {
 			}
 			return true
 		})
+		// how often each name is declared in the function: a captured name declared once cannot be shadowed
+		declCount := map[string]int{}
+		ast.Inspect(fd, func(y ast.Node) bool {
+			if did, isId := y.(*ast.Ident); isId && n.info.Defs[did] != nil {
+				declCount[did.Name]++
+			}
+			return true
+		})
 		for cid := range calls {
 			if !cid.Pos().IsValid() {
-				return true
+				// a call written by an expansion has no position to look scopes up with
+				for o := range captured {
+					if declCount[o.Name()] != 1 {
+						return true
+					}
+				}
+				continue
 			}
 			inner := n.pkg.Scope().Innermost(cid.Pos())
 			if inner == nil {
@@ -1966,9 +2025,18 @@ func (n *norm) removeExpandedClosures(fd *ast.FuncDecl) {
 	for v, fake := range n.closureOf {
 		def := n.closureDef[fake]
 		inFn, remaining := false, 0
+		blank := map[ast.Stmt]bool{} // `_ = f` statements
 		ast.Inspect(fd.Body, func(y ast.Node) bool {
 			if y == ast.Node(def) {
 				inFn = true
+			}
+			if as, ok := y.(*ast.AssignStmt); ok && as.Tok == token.ASSIGN && len(as.Lhs) == 1 && len(as.Rhs) == 1 {
+				if l, ok := as.Lhs[0].(*ast.Ident); ok && l.Name == "_" {
+					if rid, ok := as.Rhs[0].(*ast.Ident); ok && n.info.Uses[rid] == types.Object(v) {
+						blank[as] = true
+						remaining--
+					}
+				}
 			}
 			if uid, isId := y.(*ast.Ident); isId && n.info.Uses[uid] == types.Object(v) {
 				remaining++
@@ -1979,7 +2047,7 @@ func (n *norm) removeExpandedClosures(fd *ast.FuncDecl) {
 			continue
 		}
 		astutil.Apply(fd.Body, func(c *astutil.Cursor) bool {
-			if c.Node() == ast.Node(def) && c.Index() >= 0 {
+			if st, ok := c.Node().(ast.Stmt); ok && c.Index() >= 0 && (st == def || blank[st]) {
 				c.Delete()
 				return false
 			}
